@@ -419,6 +419,13 @@ PROPS["C02"]["claim"] += (" NEVER SKIPS A CHANGED STEP (never_skips_a_changed_st
     "dependency and output present and carries (from its latest record, C09) exactly the manifest of the tree as it is now - names + mtimes of "
     "inputs, remembered dependencies and outputs, command line, response file; so any such difference, a removed file or a missing record means "
     "'not clean'. With the generated inputs stat()ed, clean <-> up to date.")
+PROPS["C03"]["claim"] += (" ROUND TRIP WITH DISCOVERED DEPENDENCIES (build_after_successful_build_does_nothing_with_depfiles; Lemmas/WorkRecordD, "
+    "WorkSettledD, WorldSettledD): for ANY prior log and any project without input-rewriting commands, if an invocation succeeds without a reload, "
+    "the dependencies its finished steps remember are source files, and the named files exist afterwards, the next identical invocation changes "
+    "and runs nothing. Invariant JD (graph only gains uniquely named source files; for each Done step whose files exist the latest attributed "
+    "record = manifest of the tree now + its current dependency names) through Work::run by runLoop_done; record_finished with reported "
+    "dependencies (recordFinished_gen); start-up re-attaches exactly that record (applyLog_spec).")
+PROPS["C02"]["claim"] += (" done_steps_are_settled_with_depfiles: the same invariant at the end of every successful run::build, discovered dependencies included.")
 PROPS["C03"]["claim"] += (" REFLECTION (settled_world_is_left_alone, Lemmas/WorldReflect): the decidable predicate the monitor settledAfterSuccess evaluates "
     "on the world the real n2 left behind (World.settledC = World.settled + a closedness check of the computed closure) IMPLIES the hypothesis of "
     "repeated_build_does_nothing - so every world on which the monitor said 'settled' (evidence: driver.settledStates) is one for which it is proved "
